@@ -223,6 +223,7 @@ func TestC13Patterns(t *testing.T) {
 	defer run.Finish()
 	if run.Shard == 0 {
 		busyErrorHandler(run)
+		queuedBehindAStall(run)
 	}
 	maxLen := run.Scale(6, 11)
 	idx := 0
